@@ -363,6 +363,43 @@ def r03_4(ck, F):
                   fb.loc(takes[0]) if takes else fb.loc(0))
 
 
+def _signals_every_taken_waiter(fb, field):
+    """The waiter list `field` is taken as a whole (mem::take) and every element of exactly that list is signalled:
+    some oneshot send has the receiver `next(into_iter(mem::take(<..>.field)))` inside the iteration loop, and nothing is
+    put back into the list."""
+    sends = [(bb, t) for bb, t in fb.calls("tokio::sync::oneshot::Sender::send")]
+    for bb, t in sends:
+        e = fb.expr(t["a"][0])
+        nx = [c for c in mir.calls_in(e, "std::iter::Iterator::next")]
+        for n in nx:
+            it = n[2][0] if n[2] else None
+            while isinstance(it, tuple) and it and it[0] == "call" and it[1] == "std::iter::IntoIterator::into_iter" and it[2]:
+                it = it[2][0]
+            if isinstance(it, tuple) and it and it[0] == "call" and it[1] == "std::mem::take" and it[2] and \
+                    mir.last_field(it[2][0]) == field:
+                in_loop = any(bb in fb.loop_blocks(h) and n[3] in fb.loop_blocks(h) for _, h in fb.back_edges())
+                put_back = list(fb.field_stores(field)) or [1 for q, tt in fb.calls() if tt["fn"].get("recv") == "mut" and tt["a"] and
+                                                            mir.last_field(fb.expr(tt["a"][0])) == field and
+                                                            (callee(tt) or "").split("::")[-1] in ("push", "extend", "append", "insert")]
+                if in_loop and not put_back:
+                    return True
+    return False
+
+
+def r03_4b(ck, F):
+    ck.rule("R03.4b", "wake-ups are broadcast, never a single token: CreditProvider::provide / close and PortNumber::drop take "
+            "the whole waiter list and signal every element of it; nothing is put back",
+            "two tasks wait for a local port, one is released, the (single) notified waiter is cancelled before it runs "
+            "again: the other waiter sleeps forever although a port is free (same for credit waiters)", floor=3)
+    for fn, field in (("chmux::credit::CreditProvider::provide", "notify"), ("chmux::credit::CreditProvider::close", "notify"),
+                      ("<chmux::port_allocator::PortNumber as std::ops::Drop>::drop", "notify_tx")):
+        fb = F.body(fn)
+        name = fn.split(" as ")[0].split("::")[-1].strip("<") + "::" + fn.split("::")[-1]
+        ck.expect(_signals_every_taken_waiter(fb, field), f"{name}#wake-all", f"every waiter in `{field}` is signalled",
+                  f"{fn} does not signal every element of the waiter list `{field}` it takes (single wake-up token, filtered "
+                  f"list, or waiters put back)", fb.loc(0))
+
+
 def r03_5(ck, F):
     ck.rule("R03.5", "the coroutine bodies of ChMux::handle_event and ChMux::handle_received_msg contain no Yield "
             "(only Permit::send, unbounded send, try_send)",
@@ -436,5 +473,8 @@ def r03_7(ck, F):
 
 
 def run(ck, F):
-    for r in (r03_1, r03_1b, r03_2, r03_2b, r03_3, r03_4, r03_5, r03_6, r03_7, r03_8):
+    for r in (r03_1, r03_1b, r03_2, r03_2b, r03_3, r03_4, r03_4b, r03_5, r03_6, r03_7, r03_8):
         ck.run_rule(r)
+    import c02
+    ck.run_rule(c02.r02_6)     # sender pays max(len, 1): a receiver that books less leaks one credit per empty frame
+    ck.run_rule(c02.r02_1b)
